@@ -101,6 +101,9 @@ def replay_chunk(args):
                 widx = None
             elif opt == "rangeidx":
                 widx = True                       # the automatic range index is written as a column named "index"
+            elif opt == "rangestep":
+                df.index = pd.RangeIndex(start=len(cells) + 10, stop=10, step=-1)
+                widx = None                       # recorded as (start, stop, step) in the pandas metadata
             path = os.path.join(d, "c%d.parquet" % ci)
             has_nulls = {"true": True, "false": False, "infer": "infer"}[case["mode"]]
             stats = {"true": True, "false": False, "auto": "auto"}[case["stats"]]
@@ -144,6 +147,11 @@ def replay_chunk(args):
             try:
                 pf = fp.ParquetFile(path)
                 got = pf.to_pandas()
+                if opt == "rangestep":
+                    if [int(v) for v in got.index] != [int(v) for v in df.index]:
+                        out["viol"].append(("C01", dict(sig, what="labels of a range index with its own start and step changed "
+                                                                  "on read-back", opt=opt), ci))
+                    got = got.reset_index(drop=True)
                 if opt in ("index", "index2", "rangeidx"):
                     # the row index that was written comes back as the row index, with its name(s), and the written
                     # column(s) as columns; from here on "x" is looked at as a column of the re-set frame
